@@ -18,9 +18,16 @@ type armPred struct {
 	Entry *ssa.BasicBlock // successor on the edge that enters the arm
 }
 
+type armLab struct {
+	name string
+	g    bool // the path passed the true edge of a test of the "no BEGIN open" flag since it entered the arm
+}
+
 type Arms struct {
 	r     *Roles
 	of    map[*ssa.BasicBlock]map[string]bool
+	all   map[*ssa.BasicBlock]map[armLab]bool                    // labels with their guard attribute
+	via   map[*ssa.BasicBlock]map[*ssa.BasicBlock]map[armLab]bool // ... per predecessor they arrived through
 	Preds []armPred
 	stmt  map[int64]string // StatementType value -> constant name
 }
@@ -97,18 +104,95 @@ func (ar *Arms) edgeLabel(iff *ssa.If, k int) string {
 	return ""
 }
 
-func armAnalysis(w *World, r *Roles) *Arms {
-	ar := &Arms{r: r, of: map[*ssa.BasicBlock]map[string]bool{}, stmt: statementNames(w)}
-	head := r.LoopHead
-	add := func(b *ssa.BasicBlock, s map[string]bool) bool {
-		_, seen := ar.of[b]
-		if !seen {
-			ar.of[b] = map[string]bool{}
+// condVia: the condition of the If ending b as it reads when b was entered from pred: negations are peeled off (neg tells
+// whether an odd number was), and a phi of b itself - a flag variable set on the way in - is replaced by the value it takes
+// on that edge.
+func condVia(pred, b *ssa.BasicBlock) (ssa.Value, bool, bool) {
+	iff, ok := lastInstr(b).(*ssa.If)
+	if !ok {
+		return nil, false, false
+	}
+	c := iff.Cond
+	neg := false
+	peel := func() {
+		for {
+			u, isNot := c.(*ssa.UnOp)
+			if !isNot || u.Op != token.NOT {
+				return
+			}
+			c, neg = u.X, !neg
 		}
-		ch := !seen
+	}
+	peel()
+	if phi, isPhi := c.(*ssa.Phi); isPhi && phi.Block() == b && pred != nil {
+		for i, p := range b.Preds {
+			if p == pred {
+				c = phi.Edges[i]
+				peel()
+				break
+			}
+		}
+	}
+	return c, neg, true
+}
+
+// isFlagTest: b ends in a test of (the negation of) one of its own phis.
+func isFlagTest(b *ssa.BasicBlock) bool {
+	iff, ok := lastInstr(b).(*ssa.If)
+	if !ok {
+		return false
+	}
+	c := iff.Cond
+	for {
+		u, isNot := c.(*ssa.UnOp)
+		if !isNot || u.Op != token.NOT {
+			break
+		}
+		c = u.X
+	}
+	phi, isPhi := c.(*ssa.Phi)
+	return isPhi && phi.Block() == b
+}
+
+// feasibleVia: can edge k of b be taken when b was entered from pred? Only a flag test whose flag is a constant on that
+// edge is ever decided.
+func feasibleVia(pred, b *ssa.BasicBlock, k int) bool {
+	if pred == nil || !isFlagTest(b) {
+		return true
+	}
+	c, neg, ok := condVia(pred, b)
+	if !ok {
+		return true
+	}
+	v, isC := constBool(c)
+	if !isC {
+		return true
+	}
+	return (k == 0) == (v != neg)
+}
+
+func armAnalysis(w *World, r *Roles) *Arms {
+	ar := &Arms{r: r, of: map[*ssa.BasicBlock]map[string]bool{}, stmt: statementNames(w),
+		all: map[*ssa.BasicBlock]map[armLab]bool{}, via: map[*ssa.BasicBlock]map[*ssa.BasicBlock]map[armLab]bool{}}
+	head := r.LoopHead
+	add := func(b, from *ssa.BasicBlock, s map[armLab]bool) bool {
+		if ar.all[b] == nil {
+			ar.all[b] = map[armLab]bool{}
+			ar.of[b] = map[string]bool{}
+			ar.via[b] = map[*ssa.BasicBlock]map[armLab]bool{}
+		}
+		if ar.via[b][from] == nil {
+			ar.via[b][from] = map[armLab]bool{}
+		}
+		ch := false
 		for k := range s {
-			if !ar.of[b][k] {
-				ar.of[b][k] = true
+			if !ar.via[b][from][k] {
+				ar.via[b][from][k] = true
+				ch = true
+			}
+			if !ar.all[b][k] {
+				ar.all[b][k] = true
+				ar.of[b][k.name] = true
 				ch = true
 			}
 		}
@@ -118,11 +202,14 @@ func armAnalysis(w *World, r *Roles) *Arms {
 	for _, b := range r.Parser.Blocks {
 		if b != head && b.Dominates(head) {
 			ar.of[b] = map[string]bool{"init": true}
+			ar.all[b] = map[armLab]bool{{"init", false}: true}
 		}
 	}
 	ar.of[head] = map[string]bool{"-": true}
+	ar.all[head] = map[armLab]bool{{"-", false}: true}
 	wl := []*ssa.BasicBlock{head}
 	seenPred := map[*ssa.If]bool{}
+	isAuto := func(v ssa.Value) bool { return r.Auto != nil && v != nil && r.Auto.isLoad(v) }
 	for len(wl) > 0 {
 		b := wl[len(wl)-1]
 		wl = wl[:len(wl)-1]
@@ -131,23 +218,56 @@ func armAnalysis(w *World, r *Roles) *Arms {
 			if s == head {
 				continue
 			}
-			out := ar.of[b]
+			out := map[armLab]bool{}
+			if iff != nil && isFlagTest(b) && b != head && len(ar.via[b]) > 0 {
+				for p, set := range ar.via[b] {
+					if !feasibleVia(p, b, k) {
+						continue
+					}
+					c, neg, _ := condVia(p, b)
+					trueEdge := (k == 0) != neg
+					for l := range set {
+						if isAuto(c) && trueEdge {
+							l.g = true
+						}
+						out[l] = true
+					}
+				}
+			} else {
+				var c ssa.Value
+				neg := false
+				if iff != nil {
+					c, neg, _ = condVia(nil, b)
+				}
+				trueEdge := (k == 0) != neg
+				for l := range ar.all[b] {
+					if isAuto(c) && trueEdge {
+						l.g = true
+					}
+					out[l] = true
+				}
+			}
 			if iff != nil {
 				if l := ar.edgeLabel(iff, k); l != "" {
-					out = map[string]bool{l: true}
+					out = map[armLab]bool{{l, false}: true}
 					if !seenPred[iff] {
 						seenPred[iff] = true
 						ar.Preds = append(ar.Preds, armPred{iff, l, s})
 					}
 				}
 			}
-			if add(s, out) {
+			if add(s, b, out) {
 				wl = append(wl, s)
 			}
 		}
 	}
 	sort.Slice(ar.Preds, func(i, j int) bool { return ar.Preds[i].If.Block().Index < ar.Preds[j].If.Block().Index })
 	return ar
+}
+
+// unguarded: can block b be reached in arm `name` without having passed the true edge of a test of the flag?
+func (ar *Arms) unguarded(b *ssa.BasicBlock, name string) bool {
+	return ar.all[b][armLab{name, false}]
 }
 
 func (ar *Arms) label(b *ssa.BasicBlock) string {
@@ -211,24 +331,42 @@ func guardedBy(b *ssa.BasicBlock, cell *Cell, want bool) bool {
 // cut(from,k) is true? Blocks are entered at their start; a stop block is never
 // traversed.
 func reachesAvoiding(from, target *ssa.BasicBlock, stop func(*ssa.BasicBlock) bool, cut func(*ssa.BasicBlock, int) bool) bool {
-	seen := map[*ssa.BasicBlock]bool{}
-	var dfs func(b *ssa.BasicBlock) bool
-	dfs = func(b *ssa.BasicBlock) bool {
+	var cutP func(pred, b *ssa.BasicBlock, k int) bool
+	if cut != nil {
+		cutP = func(_, b *ssa.BasicBlock, k int) bool { return cut(b, k) }
+	}
+	return reachesAvoidingP(from, target, stop, cutP)
+}
+
+// reachesAvoidingP is reachesAvoiding with the predecessor known to cut, and with flag tests threaded: an edge out of a
+// block that tests its own phi is followed only if the value the phi takes on the edge the path came in by allows it.
+func reachesAvoidingP(from, target *ssa.BasicBlock, stop func(*ssa.BasicBlock) bool, cut func(pred, b *ssa.BasicBlock, k int) bool) bool {
+	type node struct{ b, pred *ssa.BasicBlock }
+	seen := map[node]bool{}
+	var dfs func(b, pred *ssa.BasicBlock) bool
+	dfs = func(b, pred *ssa.BasicBlock) bool {
 		if b == target {
 			return true
 		}
-		if seen[b] {
+		n := node{b, nil}
+		if isFlagTest(b) {
+			n.pred = pred
+		}
+		if seen[n] {
 			return false
 		}
-		seen[b] = true
+		seen[n] = true
 		if stop != nil && stop(b) {
 			return false
 		}
 		for k, s := range b.Succs {
-			if cut != nil && cut(b, k) {
+			if !feasibleVia(pred, b, k) {
 				continue
 			}
-			if dfs(s) {
+			if cut != nil && cut(pred, b, k) {
+				continue
+			}
+			if dfs(s, b) {
 				return true
 			}
 		}
@@ -240,12 +378,12 @@ func reachesAvoiding(from, target *ssa.BasicBlock, stop func(*ssa.BasicBlock) bo
 	if stop != nil && stop(from) {
 		return false
 	}
-	seen[from] = true
+	seen[node{from, nil}] = true
 	for k, s := range from.Succs {
-		if cut != nil && cut(from, k) {
+		if cut != nil && cut(nil, from, k) {
 			continue
 		}
-		if dfs(s) {
+		if dfs(s, from) {
 			return true
 		}
 	}
